@@ -276,7 +276,7 @@ def must_pass(fl, fn, target, pred):
     return True
 
 
-def rule_E1(ctx, prop='C14', scope=None):
+def rule_E1(ctx, prop='C14', scope=None, floor=600):
     res = RuleResult('E1', 'no const/static entry point of an in-scope class can write shared state '
                            '(mutable members, pointees of members, static storage)')
     prog = ctx.prog
@@ -284,7 +284,7 @@ def rule_E1(ctx, prop='C14', scope=None):
     classes = scope_closure(ctx, scope or (T.C14_SCOPE + T.C14_HELPERS))
     classes -= set(T.C14_EXCLUDED_CLASSES)
     ents = entries(ctx, classes)
-    res.floor('entry points', len(ents), 600)
+    res.floor('entry points', len(ents), floor)
     res.analysed['classes'] = len(classes)
     res.analysed['entry_points'] = len(ents)
     res.analysed['functions_summarised'] = len(S.W)
